@@ -23,7 +23,7 @@ from pyxel import __version__
 from pyxel.data_structure import Charge, Image, Photon, Pixel, Scene, Signal
 from pyxel.outputs.utils import save_to_files
 from pyxel.pipelines import Processor, ResultId, get_result_id, result_keys
-from pyxel.util import set_random_seed
+from pyxel.util import _verif, set_random_seed
 
 if TYPE_CHECKING:
     import xarray as xr
@@ -415,6 +415,17 @@ def run_pipeline(
         # The detector should be reset before exposure
         detector.empty()
 
+        if _verif.ENABLED:
+            _verif.emit(
+                "run_begin",
+                times=[float(t) for t in detector.readout_properties.times],
+                start_time=float(readout.start_time),
+                non_destructive=bool(readout.non_destructive),
+                pipeline=_verif.pipeline_layout(processor.pipeline),
+                seed=pipeline_seed,
+                debug=bool(debug),
+            )
+
         if progressbar:
             pbar = tqdm(
                 total=detector.readout_properties.num_steps,
@@ -446,8 +457,23 @@ def run_pipeline(
             is_destructive_readout: bool = not detector.non_destructive_readout
             detector.empty(is_destructive_readout)
 
+            if _verif.ENABLED:
+                _verif.emit(
+                    "step_begin",
+                    count=int(detector.pipeline_count),
+                    time=float(detector.time),
+                    time_step=float(detector.time_step),
+                    absolute_time=float(detector.absolute_time),
+                    first=bool(detector.is_first_readout),
+                    last=bool(detector.is_last_readout),
+                    buckets=_verif.bucket_digests(detector),
+                )
+
             # Execute the pipeline for this step.
             processor.run_pipeline(debug=debug)
+
+            if _verif.ENABLED:
+                _verif.emit("step_end", buckets=_verif.bucket_digests(detector))
 
             # Extract the results from the 'detector' into a partial 'DataTree'
             partial_datatree_2d: xr.DataTree = _extract_datatree_2d(detector=detector)
@@ -541,6 +567,9 @@ def run_pipeline(
         # Create the final `DataTree` from the dictionary.
         data_tree = xr.DataTree.from_dict(dct)
         data_tree.attrs["pyxel version"] = __version__
+
+        if _verif.ENABLED:
+            _verif.emit("run_end", result=_verif.result_digests(buckets_data_tree))
 
         if progressbar:
             pbar.close()
